@@ -547,7 +547,7 @@ Qed.
 Lemma reset_ok st fs bs : Inv_core st fs bs -> Inv_core (reset P st) [] [] /\ (pages st <> [] -> used (reset P st) = 0).
 Proof.
   intros I. unfold reset. destruct (pages st) as [|f rest] eqn:Epg.
-  - destruct (inv_empty_nil _ _ _ I Epg) as [-> ->]. split; [exact I|congruence].
+  - destruct (inv_empty_nil _ _ _ I Epg) as [-> ->]. split; [apply inv_set_used; exact I|congruence].
   - split; [|reflexivity].
     destruct I as [Hpg Hsp Hfl (A & B & Hcat & HA & HB) Hnil Hcons (o & Hch & Ho) Hcap].
     rewrite Epg in *.
@@ -744,7 +744,7 @@ Proof.
       rewrite <- app_assoc. reflexivity.
   - exists [], []. destruct (reset_ok st fs bs I) as [H Hu']. split; [|reflexivity]. split; [exact H|].
     change (zlen (@nil Z)) with 0. unfold reset in *. destruct (pages st) eqn:E.
-    + destruct (inv_empty_nil _ _ _ I E) as [-> ->]. exact Hu.
+    + reflexivity.
     + reflexivity.
   - destruct (recycle st (length (pages st) + i)) as [[st' r]|] eqn:E; [|right; exact Logic.I].
     destruct (recycle_spare_ok _ _ _ _ _ _ I E) as [H Hu']. exists fs, bs. split; [split; [exact H|lia]|reflexivity].
